@@ -242,6 +242,10 @@ def fn_programs() -> list:
         [ASSIGN("g", I(1)), ASSIGN("acc", I(100)), ASSIGN("k", I(50)), EXPR(CALL("wrap")), WRITE(V("g")), WRITE(CALL("rd")), WRITE(CALL("lp", I(4))), WRITE(V("acc")), WRITE(V("k"))])
     add("fn_for_branch_hoist", {"f": DEF(["n"], [FOR("i", V("n"), [IF([(CMP(V("i"), ("==", I(0))), [ASSIGN("w", I(9))])]), WRITE(V("w"))]), RETURN(V("w"))])},
         [WRITE(CALL("f", I(3)))])
+    # a helper re-binds its own parameters: the caller's variables keep their values
+    add("fn_param_rebind", {"shout": DEF(["text"], [ASSIGN("text", BIN("+", V("text"), S("!"))), RETURN(V("text"))]),
+                            "clampv": DEF(["v"], [IF([(CMP(V("v"), (">", I(9))), [ASSIGN("v", I(9))])]), RETURN(V("v"))])},
+        [ASSIGN("s", S("hey")), WRITE(CALL("shout", V("s"))), WRITE(V("s")), ASSIGN("q", AREAD()), WRITE(CALL("clampv", V("q"))), WRITE(V("q"))], ain=[50])
     add("fn_list", {"total": DEF(["xs"], [ASSIGN("t", I(0)), FOR("i", CALL("len", V("xs")), [AUG("t", "+", INDEX(V("xs"), V("i")))]), RETURN(V("t"))])}, [ASSIGN("v", LIST(I(1), I(2), AREAD())), WRITE(CALL("total", V("v")))], ain=[4])
     return P
 
@@ -645,6 +649,15 @@ def scope_fold_snippets() -> list:
                 (CMP(AREAD(), (">", I(0))), [WRITE(CALL("len", V(sv))), SLEEP(V(nv)), FOR(f"ai{n}", V(nv), [WRITE(INDEX(V(lv), V(f"ai{n}")))])])],
                [WRITE(BIN("+", CALL("len", V(sv)), I(100))), SLEEP(BIN("+", V(nv), I(1))), AWRITE(9, BIN("*", V(nv), I(20)))])],
             [a1, a2], "fold:sibling-arms"))
+    # tuple assignments: the whole right-hand side is evaluated before any target is bound - also for what is folded from constants
+    out.append(snip("fold-tuple-swap-str", [ASSIGN("ta", S("ab")), ASSIGN("tb", S("abcdef")), TUPLE(["ta", "tb"], [V("tb"), V("ta")]),
+                                            WRITE(CALL("len", V("ta"))), SLEEP(CALL("len", V("tb"))), WRITE(V("ta"))], [], "fold:tuple"))
+    out.append(snip("fold-tuple-rotate-str", [ASSIGN("ra", S("a")), ASSIGN("rb", S("bb")), ASSIGN("rc", S("cccc")), TUPLE(["ra", "rb", "rc"], [V("rb"), V("rc"), V("ra")]),
+                                              WRITE(BIN("+", BIN("*", CALL("len", V("ra")), I(100)), BIN("+", BIN("*", CALL("len", V("rb")), I(10)), CALL("len", V("rc")))))], [], "fold:tuple"))
+    out.append(snip("fold-tuple-measure-then-rebind", [ASSIGN("tg", S("ab")), TUPLE(["tg", "tw"], [S("wide"), CALL("len", V("tg"))]), WRITE(V("tw")), WRITE(CALL("len", V("tg"))), SLEEP(BIN("*", V("tw"), I(25)))],
+                    [], "fold:tuple"))
+    out.append(snip("fold-tuple-swap-int-fold", [ASSIGN("na", I(2)), ASSIGN("nb", I(6)), TUPLE(["na", "nb"], [V("nb"), V("na")]), SLEEP(BIN("*", V("na"), I(100))),
+                                                 FOR("ni", V("nb"), [WRITE(V("ni"))]), AWRITE(9, BIN("*", V("na"), I(10)))], [], "fold:tuple"))
     # name-free comparison chains (foldable at transpile time): each comparison is with the PREVIOUS operand
     chains = [((0, "<", 10, "<", 5), 100, 500), ((0, "<=", 300, "<=", 255), 200, 10), ((3, ">", 1, ">", 2), 7, 8), ((1, "<", 2, "<", 3), 30, 40),
               ((2, "==", 2, "!=", 2), 5, 6), ((5, ">", 4, ">", 4), 11, 12), ((1, "<", 3, ">", 2), 21, 22), ((1, "<", 2, "<", 3, "<", 2), 31, 32)]
